@@ -16,7 +16,7 @@ RULE = (
     "the alphabet; random payload/ICV sizes and fragment fields. Per case: next_header, write, header_len, write->from_slice "
     "round trip with a random tail. Further streams: set_next_headers->walk->write for every presence set x final number "
     "(all 256 numbers for the full set and in the thorough tier for all sets), IpHeaders/NetHeaders ether type, "
-    "Ipv4Extensions (auth x all 256 first numbers), from_slice on python-composed chains (ordered or not, duplicated, "
+    "Ipv4Extensions (auth x all 256 first numbers), from_slice and from_slice_lax on python-composed chains (ordered or not, duplicated, "
     "hop-by-hop misplaced, perturbed length bytes, every truncation) and on noise. non-trivial = at least one header present "
     "or a non-empty byte string"
 )
@@ -28,7 +28,7 @@ EXPLANATION = (
     "(python encoder) forming a linked chain from first to the walk result, from_slice(written ++ tail) returns the same "
     "struct, number and tail, set_next_headers(n) walks to n and serialises in the RFC 8200 order given by "
     "EpModel.Spec.Rfc8200Order (Lean driver), unreferenced / misplaced headers give the error naming a present header, "
-    "ether type = 0x0800/0x86DD by version"
+    "ether type = 0x0800/0x86DD by version, from_slice rest window = header_len, from_slice_lax agrees with from_slice"
 )
 ASSUMPTIONS = [
     "the writer never fails (Vec<u8>); I/O faults are property C16",
